@@ -957,6 +957,35 @@ def read_returns(eng: Engine, ctx: Ctx, rid: str, model: ReaderModel | None = No
     return n
 
 
+def assembler_result(eng: Engine, ctx: Ctx, rid: str, model: "ReaderModel | None" = None):
+    """The parsed object a frame is returned with is the static parser's result for exactly the bytes assembled in this call (or None when
+    parsing is off): no object kept from an earlier frame, no other constructor."""
+    ctx.rule(rid, "frame assembler: returns (raw, parsed) with raw the bytes assembled in this call and parsed = self.parse(raw, ...) evaluated in this call, "
+                  "or None when the parsed option is off")
+    m = model or ReaderModel(eng)
+    f = m.asm
+    se = eng.symeval(f.qualname)
+    opts = reader_option_fields(eng)
+    pfield = opts.get("parsed")
+    pcalls = [e for e in se.effects if e.kind == "call" and is_self_call(e.term, "parse")]
+    rets = [e for e in se.effects if e.kind == "return"]
+    n = 0
+    for e in rets:
+        n += 1
+        t = e.term
+        if not (t[0] == "tuple" and len(t[1]) == 2):
+            ctx.bad(rid, f.qualname, norm(e.node)[:60], expected="return (raw, parsed)", found=show(t)[:80], **eng.loc(f, e.node))
+            continue
+        raw, parsed = t[1]
+        for g, leaf in leaves(parsed, e.guards):
+            off = any(c in (("field", pfield), ("fieldv", pfield)) or (c[0] in ("field", "fieldv") and c[1] == pfield) for c, pol in g if not pol)
+            isparse = leaf[0] == "call" and is_self_call(leaf, "parse") and any(leaf == pc.term for pc in pcalls) and leaf[3][:1] == (raw,)
+            isnone = is_const(leaf) and leaf[1] is None
+            ctx.check(isparse or (isnone and off), rid, f.qualname, f"parsed component of {norm(e.node)[:40]}" + (f" under {guard_text(g)[:50]}" if g else ""),
+                      expected="self.parse(<the raw frame returned>) from this call, or None with parsing off", found=show(leaf)[:80], **eng.loc(f, e.node))
+    return n
+
+
 # ============================================================================ C02 rules
 def _interval(t, model: "ReaderModel | None" = None):
     """Conservative integer interval [lo, hi] of a request-size term (None = unbounded)."""
